@@ -6,6 +6,7 @@ from ..ref import secp, b58, compact as RC, hashes as H
 from .. import libx
 
 from bitcoin.core.key import CPubKey, CECKey
+from bitcoin.core.script import IsLowDERSignature
 from bitcoin.wallet import CBitcoinSecret, CBitcoinSecretError
 from bitcoin.base58 import Base58Error
 
@@ -182,6 +183,8 @@ def check_pubvalid(case):
 def check_case(case):
     if case.get('kind') == 'siglen':
         return check_siglen(case)
+    if case.get('kind') == 'lows':
+        return check_lows(case)
     return {'key': check_key, 'sign': check_sign, 'verify': check_verify, 'pubvalid': check_pubvalid, 'env': check_env}[case['kind']](case)
 
 
@@ -357,8 +360,39 @@ def check_siglen(case):
     return {'nt': True, 'evals': 4, 'cls': ['siglen:%d' % len(der)]}
 
 
+def check_lows(case):
+    """the two helpers that make `sign` return low-S signatures, asked directly at values of s that no signer can be steered
+    to (s within a few units, or one byte position, of half the group order): the predicate says low exactly for 0 < s <= n/2,
+    the normaliser returns (r, min(s, n-s)) strictly DER-encoded"""
+    r, s_ = int(case['r'], 16), int(case['s'], 16)
+    der = secp.der(r, s_)
+    want = 0 < s_ <= n // 2
+    got = libx.call('IsLowDERSignature', IsLowDERSignature, der)[1]
+    if bool(got) != want:
+        raise Violation('lows/predicate-' + ('high-called-low' if got else 'low-called-high'), 'IsLowDERSignature says %r for s = n/2 %+d' % (got, s_ - n // 2)
+                        if abs(s_ - n // 2) < 2 ** 64 else 'IsLowDERSignature says %r for s=%#x' % (got, s_))
+    k = CECKey()
+    out = libx.call('signature_to_low_s', k.signature_to_low_s, der)[1]
+    if out != secp.der(r, min(s_, n - s_)):
+        raise Violation('lows/normalise', 'signature_to_low_s(r, s=%#x) returned %s' % (s_, out.hex() if out else out))
+    return {'nt': True, 'evals': 2, 'cls': ['lows-' + ('low' if want else 'high')]}
+
+
 def t_verify(ctx):
     ctx.hyp(s_verify(), ctx.n(200, 3000))
+    if ctx.shard == 0:
+        half = n // 2
+        hb = half.to_bytes(32, 'big')
+        ss = {half + d for d in range(-3, 4)} | {1, 2, n - 1, n - 2, 1 << 255, (1 << 255) - 1, 1 << 248, 0x7f << 248, 0x80 << 248}
+        for i in range(32):
+            for d in (-1, 1):
+                if 0 <= hb[i] + d <= 255:
+                    # half the order with ONE byte one unit off, the bytes after it all-zero / all-ones / unchanged
+                    for tail in (hb[i + 1:], b'\x00' * (31 - i), b'\xff' * (31 - i)):
+                        ss.add(int.from_bytes(hb[:i] + bytes([hb[i] + d]) + tail, 'big'))
+        for j, s_ in enumerate(sorted(x for x in ss if 0 < x < n)):
+            ctx.run({'kind': 'lows', 'r': '%x' % secp.mul(j + 2, secp.G)[0] if j < 6 else '%x' % (0x1234567 + j), 's': '%x' % s_})
+        ctx.exhaustive.append('low-S predicate and normaliser at half the group order +-3 and with each of its 32 bytes one unit off (3 tails each)')
     # every total DER length 8..72 that (r, s) encodings of 1..33 bytes each can make, several ways each
     rs = {}
     k_ = 1
